@@ -25,16 +25,19 @@ import Proofs.Lemmas.C13BReal
       `LineTo`s only, of total length `it.dash_remaining` from `p0` (the first dash): no `MoveTo` between the last dash and
       the first, one contour – and `out = E ++ MoveTo p0 :: N` if it is off there.  Pattern off at the offset and on at
       the closing point: `out` ends with `LineTo p0`.
-    * `dash_closed_whole`: the whole sub-path inside the first dash: `out = M p0, L q, …, L qₖ, Z, L p0` when `qₖ ≠ p0` and
-      `M p0, L q, …, L qₖ₋₁, Z, L qₖ` when `qₖ = p0`: the `ClosePath` comes BEFORE the last `LineTo` (this is what the
-      model – and, according to the task description, the crate – emits; checked on the model over `Rat` below).
+    * `dash_closed_whole`: the whole sub-path inside the first dash: `out` is the whole sub-path, in order, `ClosePath` last:
+      `M p0, L q, …, L qₖ, L p0, Z` when `qₖ ≠ p0` (the closing line is made explicit) and `M p0, L q, …, L qₖ, Z` – the
+      input itself – when `qₖ = p0`; `dash_closed_whole_closePath_last`: in both cases `out = MoveTo p0 :: ls ++ [ClosePath]`
+      with `ls` consisting of `LineTo`s only.  (Model of the crate after the repair 7127469 of `DashIterator::step`: the
+      last piece of a segment is pushed to the stash BEFORE `get_input` appends the `ClosePath`; before that repair the
+      `ClosePath` came before the last `LineTo`.  Checked on the model over `Rat` below.)
     * `dash_closed_phase_reset`: with arbitrary further input `rest` after the `ClosePath`, `collect()` passes through a
       state that is `NeedInput`, has `rest` as input, an empty stash, nothing pending, and the phase
       (`dash_ix`, `dash_remaining`, `is_active`) and `init_*` fields of the iterator that `dash_impl` built – having
       collected strokes of total length = the on-length so far.
     * `dash_two_closed_conserves`: consequence: two closed sub-paths in one path – the second is dashed like a first one
       (its on-length is computed from the SAME start position).
-    * `dash_closed_short_returns`: `M p0 L q Z` inside the first dash: `dash` returns (unconditionally) `M p0 L q Z L p0`.
+    * `dash_closed_short_returns`: `M p0 L q Z` inside the first dash: `dash` returns (unconditionally) `M p0 L q L p0 Z`.
 
     NOT PROVED
     * the arc-length interval of every single piece (as in C13): of `N` it is proved that it consists of `LineTo`s of total
@@ -175,8 +178,8 @@ example : (dash [.MoveTo ⟨0, 0⟩, .LineTo ⟨1, 0⟩, .LineTo ⟨1, 1⟩, .Li
   decide +kernel
 
 /-- **The whole sub-path inside the first dash** (pattern on at the offset, first dash not shorter than the perimeter): the
-    output is the closed contour with the `ClosePath` BEFORE the last `LineTo`:
-    `M p0, L q, …, L qₖ, Z, L p0` if `qₖ ≠ p0`, and `M p0, L q, …, L qₖ₋₁, Z, L qₖ` if `qₖ = p0`. -/
+    output is the whole closed contour in order, `ClosePath` last:
+    `M p0, L q, …, L qₖ, L p0, Z` if `qₖ ≠ p0` (with the closing line), and `M p0, L q, …, L qₖ, Z` (the input) if `qₖ = p0`. -/
 theorem dash_closed_whole [LawfulHypotSq K] (p0 q : Point K) (pts : List (Point K)) (off : K) (dashes : Array K)
     (budget : Nat) (it : DashIt K)
     (hit : dashImpl (.MoveTo p0 :: .LineTo q :: (pts.map .LineTo ++ [.ClosePath])) off dashes = some it)
@@ -187,9 +190,9 @@ theorem dash_closed_whole [LawfulHypotSq K] (p0 q : Point K) (pts : List (Point 
     (hout : dash (.MoveTo p0 :: .LineTo q :: (pts.map .LineTo ++ [.ClosePath])) off dashes budget = .ok out)
     (hact : it.is_active = true) (hge : ¬ it.dash_remaining < (polyLens p0 (q :: (pts ++ [p0]))).sum) :
     ((q :: pts).getLast (List.cons_ne_nil q pts) ≠ p0 →
-      out = .MoveTo p0 :: ((q :: pts).map .LineTo ++ [.ClosePath, .LineTo p0])) ∧
+      out = .MoveTo p0 :: ((q :: pts).map .LineTo ++ [.LineTo p0, .ClosePath])) ∧
     ((q :: pts).getLast (List.cons_ne_nil q pts) = p0 →
-      out = .MoveTo p0 :: ((q :: pts).dropLast.map .LineTo ++ [.ClosePath, .LineTo p0])) := by
+      out = .MoveTo p0 :: ((q :: pts).map .LineTo ++ [.ClosePath])) := by
   obtain ⟨-, -, c3⟩ := c13b_dash_closed_out p0 q pts off dashes budget it hit hn h0 hpat f o ph' hw out hout
   obtain ⟨N, E, -, -, d3⟩ := c3 hact
   obtain ⟨-, e2, e3⟩ := d3 hge
@@ -200,25 +203,48 @@ theorem dash_closed_whole [LawfulHypotSq K] (p0 q : Point K) (pts : List (Point 
   · intro h
     rw [c13b_wholeN_eq p0 q pts (by rw [c13b_lastPt_eq_getLast]; exact h)]
 /-- the model over `Rat`: unit square inside the dash of pattern [5,1] (also with the perimeter exactly: [4,1]); the same
-    with an explicit last `LineTo (0,0)` (`qₖ = p0`): that `LineTo` comes after the `ClosePath` -/
+    with an explicit last `LineTo (0,0)` (`qₖ = p0`): the output is the input -/
 example : (dash [.MoveTo ⟨0, 0⟩, .LineTo ⟨1, 0⟩, .LineTo ⟨1, 1⟩, .LineTo ⟨0, 1⟩, .ClosePath] (0 : Rat) #[5, 1]).okList =
-      some [.MoveTo ⟨0, 0⟩, .LineTo ⟨1, 0⟩, .LineTo ⟨1, 1⟩, .LineTo ⟨0, 1⟩, .ClosePath, .LineTo ⟨0, 0⟩] ∧
+      some [.MoveTo ⟨0, 0⟩, .LineTo ⟨1, 0⟩, .LineTo ⟨1, 1⟩, .LineTo ⟨0, 1⟩, .LineTo ⟨0, 0⟩, .ClosePath] ∧
     (dash [.MoveTo ⟨0, 0⟩, .LineTo ⟨1, 0⟩, .LineTo ⟨1, 1⟩, .LineTo ⟨0, 1⟩, .ClosePath] (0 : Rat) #[4, 1]).okList =
-      some [.MoveTo ⟨0, 0⟩, .LineTo ⟨1, 0⟩, .LineTo ⟨1, 1⟩, .LineTo ⟨0, 1⟩, .ClosePath, .LineTo ⟨0, 0⟩] ∧
+      some [.MoveTo ⟨0, 0⟩, .LineTo ⟨1, 0⟩, .LineTo ⟨1, 1⟩, .LineTo ⟨0, 1⟩, .LineTo ⟨0, 0⟩, .ClosePath] ∧
     (dash [.MoveTo ⟨0, 0⟩, .LineTo ⟨1, 0⟩, .LineTo ⟨1, 1⟩, .LineTo ⟨0, 1⟩, .LineTo ⟨0, 0⟩, .ClosePath] (0 : Rat)
         #[5, 1]).okList =
-      some [.MoveTo ⟨0, 0⟩, .LineTo ⟨1, 0⟩, .LineTo ⟨1, 1⟩, .LineTo ⟨0, 1⟩, .ClosePath, .LineTo ⟨0, 0⟩] ∧
+      some [.MoveTo ⟨0, 0⟩, .LineTo ⟨1, 0⟩, .LineTo ⟨1, 1⟩, .LineTo ⟨0, 1⟩, .LineTo ⟨0, 0⟩, .ClosePath] ∧
     (dashImpl ([] : List (PathEl Rat)) 0 #[5, 1]).map (fun it => (it.is_active, decide (it.dash_remaining < 4)))
       = some (true, false) := by
   decide +kernel
 
+/-- **… without case distinction**: the output is `MoveTo p0`, then `LineTo`s only, then the `ClosePath` – one closed
+    contour, `ClosePath` LAST (so a consumer draws every stroke from the end of the previous one); the strokes have the total
+    length `o` of `dash_closed_conserves`. -/
+theorem dash_closed_whole_closePath_last [LawfulHypotSq K] (p0 q : Point K) (pts : List (Point K)) (off : K)
+    (dashes : Array K) (budget : Nat) (it : DashIt K)
+    (hit : dashImpl (.MoveTo p0 :: .LineTo q :: (pts.map .LineTo ++ [.ClosePath])) off dashes = some it)
+    (hn : 0 < dashes.size) (h0 : 0 ≤ it.dash_remaining) (hpat : ∀ i, 0 ≤ cyc dashes i)
+    (f : Nat) (o : K) (ph' : Ph K)
+    (hw : walkList dashes.size (cyc dashes) f it.ph (polyLens p0 (q :: (pts ++ [p0]))) = some (o, ph'))
+    (out : List (PathEl K))
+    (hout : dash (.MoveTo p0 :: .LineTo q :: (pts.map .LineTo ++ [.ClosePath])) off dashes budget = .ok out)
+    (hact : it.is_active = true) (hge : ¬ it.dash_remaining < (polyLens p0 (q :: (pts ++ [p0]))).sum) :
+    ∃ ls : List (Point K), out = .MoveTo p0 :: (ls.map .LineTo ++ [.ClosePath]) ∧
+      (∀ pen, drawnLen pen out = o) ∧
+      (ls = q :: pts ∨ ls = (q :: pts) ++ [p0]) := by
+  obtain ⟨h1, h2⟩ := dash_closed_whole p0 q pts off dashes budget it hit hn h0 hpat f o ph' hw out hout hact hge
+  have hlen := (dash_closed_conserves p0 q pts off dashes budget it hit hn h0 hpat f o ph' hw out hout).1
+  by_cases h : (q :: pts).getLast (List.cons_ne_nil q pts) = p0
+  · exact ⟨q :: pts, h2 h, hlen, Or.inl rfl⟩
+  · refine ⟨(q :: pts) ++ [p0], ?_, hlen, Or.inr rfl⟩
+    rw [h1 h]
+    simp
+-- (hypotheses: those of `dash_closed_whole`; the witnesses above – `c13b_exReal_closed_ok` over ℝ and the `Rat` evaluations – apply)
 /-- `M p0 L q Z` (`q ≠ p0`) inside the first dash: `dash` does return, for every lawful scalar (no fuel or budget
-    problem), namely `M p0, L q, Z, L p0`. -/
+    problem), namely `M p0, L q, L p0, Z`. -/
 theorem dash_closed_short_returns (p0 q : Point K) (off : K) (dashes : Array K) (budget : Nat) (it : DashIt K)
     (hit : dashImpl [.MoveTo p0, .LineTo q, .ClosePath] off dashes = some it) (hn : 0 < dashes.size) (hne : q ≠ p0)
     (hact : it.is_active = true) (hge1 : ¬ it.dash_remaining < (Line.mk p0 q).arclen 0)
     (hge2 : ¬ it.dash_remaining - (Line.mk p0 q).arclen 0 < (Line.mk q p0).arclen 0) (hb : 5 ≤ budget) :
-    dash [.MoveTo p0, .LineTo q, .ClosePath] off dashes budget = .ok [.MoveTo p0, .LineTo q, .ClosePath, .LineTo p0] :=
+    dash [.MoveTo p0, .LineTo q, .ClosePath] off dashes budget = .ok [.MoveTo p0, .LineTo q, .LineTo p0, .ClosePath] :=
   c13b_dash_closed_short p0 q off dashes budget it hit hn hne hact hge1 hge2 hb
 example : (dashImpl [.MoveTo ⟨0, 0⟩, .LineTo ⟨1, 0⟩, .ClosePath] (0 : Rat) #[4]).map
       (fun it => (it.is_active, decide (it.dash_remaining < (Line.mk (⟨0, 0⟩ : Point Rat) ⟨1, 0⟩).arclen 0),
